@@ -156,6 +156,16 @@ func keptStateRule(p *load.Program, run *report.Run, pkgs []string) {
 			inv[cell] = "reported by cached-buffer-exclusive-and-cleared"
 		}
 	}
+	for cell, why := range ownedBuffers(p, run, pkgs).verdict {
+		if _, listed := inv[cell]; listed {
+			continue
+		}
+		if why == "" {
+			inv[cell] = "a buffer owned through a busy flag; ownership is decided by busy-flag-released-only-by-owner"
+		} else {
+			inv[cell] = "reported by busy-flag-released-only-by-owner"
+		}
+	}
 	lints.LazyState(p, run, pkgs, inv)
 }
 
